@@ -501,12 +501,20 @@ def _spelling_case(case):
 
     with sc.write_project(tree) as proj:
         ref = sc.real_scan(proj, "proj", mp, **kw)
+        cwd = os.getcwd()
         try:
-            ev = get_evaluable_architecture(spell(proj.path("proj"), sr) if sr else proj.path("proj"),
-                                            spell(proj.path(mp), sm) if sm else proj.path(mp), **kw)
+            if sr == "REL" or sm == "REL":
+                # both paths relative to the working directory (the directory that holds the project)
+                os.chdir(proj.path())
+                ev = get_evaluable_architecture("proj" if sr == "REL" else proj.path("proj"), mp if sm == "REL" else proj.path(mp), **kw)
+            else:
+                ev = get_evaluable_architecture(spell(proj.path("proj"), sr) if sr else proj.path("proj"),
+                                                spell(proj.path(mp), sm) if sm else proj.path(mp), **kw)
             got = sc.snapshot_str(*graph_snapshot(ev))
         except Exception as e:  # noqa: BLE001
             got = "ERR:" + err_kind(e)
+        finally:
+            os.chdir(cwd)
     return ref, got
 
 
@@ -520,6 +528,8 @@ def path_spellings(ctx, stream, n):
         mp = "proj" if rng.random() < 0.6 else rng.choice(dirs)
         sr = rng.choice(SPELLINGS + [None])
         sm = rng.choice(SPELLINGS + [None])
+        if rng.random() < 0.25:
+            sr = sm = "REL"
         if sr is None and sm is None:
             continue
         kw = {}
